@@ -14,6 +14,7 @@
 #include "lsim.h"
 #include "monitors.h"
 #include <algorithm>
+#include <errno.h>
 #include <stdio.h>
 #include <string.h>
 
@@ -44,6 +45,7 @@ void check_get(Shard &S_, Th &t, const string &k, const Contents &m, const ldb_s
   string v;
   int rc = db_get(S_.db, k, &v, s, S_.p->cfg.verify, S_.p->cfg.fillc);
   count("get_checks");
+  if (rc == ENOENT) { violation("C13", "table_enoent", "thread %d %s get(%s) fails with ENOENT: a table file named by a live version is gone", t.tid, what, printable(k).c_str()); return; }
   auto f = m.find(k);
   if (f == m.end()) {
     if (rc != LDB_NOTFOUND) violation(prop, "get_mismatch", "thread %d %s get(%s): expected NOTFOUND, got %s %s", t.tid, what, printable(k).c_str(), rcname(rc), rc == 0 ? printable(v).c_str() : "");
@@ -68,7 +70,7 @@ void scan_fwd(Th &t, ldb_iter_t *it, const Contents &view, const char *prop, con
     ldb_iter_next(it);
   }
   int st = ldb_iter_status(it);
-  if (st != LDB_OK) { violation(prop, "iter_status", "thread %d %s forward scan: status %s", t.tid, what, rcname(st)); return; }
+  if (st != LDB_OK) { violation(st == ENOENT ? "C13" : prop, st == ENOENT ? "table_enoent" : "iter_status", "thread %d %s forward scan: status %s", t.tid, what, rcname(st)); return; }
   if (m != view.end()) violation(prop, "iter_missing", "thread %d %s forward scan ends after %zu entries; expected %s next (%zu in the view)", t.tid, what, n, printable(m->first).c_str(), view.size());
   count("range_scans");
 }
@@ -89,7 +91,7 @@ void scan_bwd(Th &t, ldb_iter_t *it, const Contents &view, const char *prop, con
     ldb_iter_prev(it);
   }
   int st = ldb_iter_status(it);
-  if (st != LDB_OK) { violation(prop, "iter_status", "thread %d %s backward scan: status %s", t.tid, what, rcname(st)); return; }
+  if (st != LDB_OK) { violation(st == ENOENT ? "C13" : prop, st == ENOENT ? "table_enoent" : "iter_status", "thread %d %s backward scan: status %s", t.tid, what, rcname(st)); return; }
   if (m != view.rend()) violation(prop, "iter_missing", "thread %d %s backward scan ends after %zu entries; expected %s next", t.tid, what, n, printable(m->first).c_str());
   count("range_scans");
 }
